@@ -188,6 +188,38 @@ class _Recorder:
         del self.idp.sec.encrypt_assertion
 
 
+class _ExtraAdvice:
+    """method wrapper on Server.setup_assertion: the assertion handed to Entity._response carries one advice
+    assertion (with Issuer, own attribute values) although the call is not a PEFIM one"""
+
+    def __init__(self, idp, advice_identity):
+        self.idp, self.advice_identity = idp, advice_identity
+
+    def __enter__(self):
+        if self.advice_identity is None:
+            return self
+        from saml2 import saml
+
+        orig = self.idp.setup_assertion
+
+        def setup_assertion(authn, sp_entity_id, in_response_to, consumer_url, name_id, policy, _issuer, authn_statement,
+                            identity, best_effort, sign_response, **kw):
+            a = orig(authn, sp_entity_id, in_response_to, consumer_url, name_id, policy, _issuer, authn_statement,
+                     identity, best_effort, sign_response, **kw)
+            adv = orig(None, sp_entity_id, None, None, None, policy, _issuer, None, copy.deepcopy(self.advice_identity),
+                       best_effort, sign_response, farg=kw.get("farg"))
+            a.advice = saml.Advice()
+            a.advice.assertion.append(adv)
+            return a
+
+        self.idp.setup_assertion = setup_assertion
+        return self
+
+    def __exit__(self, *a):
+        if self.advice_identity is not None:
+            del self.idp.setup_assertion
+
+
 # ------------------------------------------------------------------ independent wire reader
 
 
@@ -286,7 +318,7 @@ def _b64_chunks(xml):
             continue
 
 
-def leaks(xml, name_marker, attr_markers):
+def leaks(xml, name_marker, outer_markers, advice_markers):
     """marker search over the wire bytes and over every base64-decodable chunk of them"""
     hay = [xml.encode("utf-8")] + list(_b64_chunks(xml))
 
@@ -301,8 +333,8 @@ def leaks(xml, name_marker, attr_markers):
     for adv in root.iter(_q(SAML, "Advice")):
         n_adv += len(adv.findall(_q(SAML, "Assertion")))
         n_adv += sum(len(e.findall(_q(SAML, "Assertion"))) for e in adv.findall(_q(SAML, "EncryptedAssertion")))
-    return {"assertion": n_resp + n_wrapped > 0, "advice_assertion": n_adv > 0,
-            "name_id": seen(name_marker), "attrs": any(seen(m) for m in attr_markers)}
+    return {"assertion": n_resp + n_wrapped > 0, "advice_assertion": n_adv > 0, "name_id": seen(name_marker),
+            "attrs_outer": any(seen(m) for m in outer_markers), "attrs_advice": any(seen(m) for m in advice_markers)}
 
 
 def tamper(xml, what, pos):
@@ -330,7 +362,7 @@ def run_idp(case):
     fl = case["flags"]
     kw = {k: fl.get(k) for k in FLAG_NAMES}
     nid = saml.NameID(format=saml.NAMEID_FORMAT_PERSISTENT, text=case["name_id"])
-    with _Recorder(idp) as rec, S.clock(case["now"]):
+    with _Recorder(idp) as rec, _ExtraAdvice(idp, case.get("advice_identity")), S.clock(case["now"]):
         try:
             r = idp.create_authn_response(
                 copy.deepcopy(case["identity"]), RID, S.SP_ACS_POST, S.SP_ID, name_id=nid, authn=AUTHN,
@@ -380,23 +412,43 @@ def run_sp(case, xml):
             "not_on_or_after": si["not_on_or_after"] if si else None, "cached": cached, "assertion_id": aid}
 
 
+def _vals(d):
+    return [v for vs in (d or {}).values() for v in vs]
+
+
+def expected_split(case):
+    """attribute values the Response-level assertion / the advice assertion carry"""
+    if case["flags"]["pefim"]:
+        return {}, case["identity"]
+    return case["identity"], case.get("advice_identity") or {}
+
+
+def _ava3(ava, want):
+    got = {k: list(v) for k, v in ava.items() if k in want}
+    if not got:
+        return "none"
+    return "full" if got == {k: list(v) for k, v in want.items()} else "other"
+
+
 def run_impl(case):
     xml, ops, exc = run_idp(case)
-    outer_ids = set()
     if xml is None:
-        return {"idp": "refused", "ops": _canon_ops(ops, None)}
+        return {"idp": "refused", "ops": []}
     shape, outer, adv = read_wire(xml)
-    attr_markers = [v for vs in case["identity"].values() for v in vs]
+    want_outer, want_advice = expected_split(case)
     out = {"idp": "ok", "ops": _canon_ops(ops, outer.get("ID") if outer is not None else None), "wire": shape,
-           "leak": leaks(xml, case["name_id"], attr_markers)}
+           "leak": leaks(xml, case["name_id"], _vals(want_outer), _vals(want_advice))}
     # what was issued, as the holder of every key reads it
     issued_id = outer.get("ID") if outer is not None else None
     sent, applied = tamper(xml, case.get("tamper"), case.get("tamper_pos", 0))
     out["tampered"] = applied
     sp = run_sp(case, sent)
     if sp["r"] == "identity":
-        want = {k: list(v) for k, v in sorted(case["identity"].items())}
-        sp["ava"] = "full" if sp["ava"] == want else "empty" if not sp["ava"] else "other"
+        ava = sp.pop("ava")
+        sp["ava_outer"] = _ava3(ava, want_outer)
+        sp["ava_advice"] = _ava3(ava, want_advice)
+        if set(ava) - set(want_outer) - set(want_advice):
+            sp["ava_outer"] = "other"
         sp["name_id_ok"] = sp.pop("name_id") == case["name_id"]
         sp["assertion_ok"] = sp.pop("assertion_id") == issued_id
     out["sp"] = sp
@@ -416,3 +468,261 @@ def _canon_ops(ops, outer_id):
         else:
             res.append(("encAdvice:" if op[1] == "advice" else "encAssertion:") + op[2])
     return res
+
+
+# ------------------------------------------------------------------ generators
+
+RULE = ("complete table sign_response x sign_assertion x encrypt_assertion x encrypted_advice_attributes x "
+        "encrypt_assertion_self_contained x pefim (64) x certificate source {metadata, explicit, none} x recipient "
+        "{one key pair, two pairs (rotation)} with the right key, plus per flag cell and certificate source: wrong key, "
+        "bit-flipped wrapped key, bit-flipped ciphertext; random stream: None/config/default resolution of the flags, "
+        "unusable / use-less / several metadata certificates, \"\" and PEM-armoured explicit certificates, different "
+        "certificates for advice and assertion, per-request private keys (outstanding_certs), recipient signature "
+        "policies, late or unsolicited delivery, a non-PEFIM advice assertion; random identities and subject "
+        "identifiers carrying unique markers; non-trivial = a Response was issued with something sealed or a "
+        "requested encryption; distinct = distinct case JSON")
+TRUSTED = [
+    "xmlsec1 stand-in (harness/standin/xmlsec_standin.py): model of xmlsec1's documented behaviour; RSA-OAEP key "
+    "transport + AES-GCM via `cryptography`: a wrong key or a flipped bit in either CipherValue makes --decrypt fail",
+    "ideal cryptography in the Lean model: EncryptedData is an opaque box that opens only for the matching private "
+    "key and only while intact; a signature verifies iff what it covered still looks the same; keys are opaque ids",
+    "the wire form is read by the harness with xml.etree and the stand-in's --decrypt (never with pysaml2's classes); "
+    "the marker search covers the wire bytes and every base64-decodable text chunk of them",
+    "method wrappers on the IdP's SecurityContext.sign_statement / encrypt_assertion record the successful calls in "
+    "order; a wrapper on Server.setup_assertion injects the non-PEFIM advice assertion of the 'extra advice' cases",
+    "the issued assertion's content (conditions, subject confirmation, audience) is what scenario.make_idp's policy "
+    "produces; the driver rebuilds it from the case (clock, lifetime 900 s, ACS URL, request id) - C09 is about that content",
+    "shared SP model Model/Sp.lean (Sp.process) and its trusted base (see C01); XML parsing / serialisation and "
+    "pysaml2's object model are exercised, not modelled",
+    "schema validation inside signature checking (validate_doc_with_schema) is modelled by two facts: PEFIM's advice "
+    "assertion has no Issuer and an EncryptedAssertion without EncryptedData is invalid",
+]
+ASSUMPTIONS = [
+    "the recipient is known to the IdP's metadata; one assertion per Response; at most one advice assertion",
+    "identities are non-empty dictionaries of str lists; marker values are alphanumeric (no XML escaping involved)",
+    "Entity._response is reached through Server.create_authn_response (to_sign = the assertion iff it is to be "
+    "signed and not to be encrypted)",
+]
+
+MD_CHOICES = {
+    "md": [["signing", "sp", True], ["encryption", "sp_enc1", True]],
+    "none": [["signing", "sp", True]],
+    "md2": [["signing", "sp", True], ["encryption", "sp_enc2", True], ["encryption", "sp_enc1", True]],
+    "garbage-first": [["signing", "sp", True], ["encryption", "attacker", False], ["encryption", "sp_enc1", True]],
+    "garbage-only": [["signing", "sp", True], ["encryption", "attacker", False]],
+    "no-use": [[None, "sp_enc1", True]],
+    "empty": [],
+}
+ATTRS = ["givenName", "sn", "mail", "displayName", "uid", "title", "o", "ou"]
+ADV_ATTRS = ["eduPersonAffiliation", "eduPersonEntitlement", "eduPersonNickname"]
+
+
+def _mk(rng, n=10):
+    return "Mk" + "".join(rng.choice("abcdefghijklmnopqrstuvwxyz0123456789") for _ in range(n))
+
+
+def base_case(rng, flags, md="md", cert_assertion=None, cert_advice=None, sp=None, tamper=None, tag="cell"):
+    names = rng.sample(ATTRS, rng.randint(1, 3))
+    ident = {n: [_mk(rng) for _ in range(rng.randint(1, 2))] for n in names}
+    c = {"tag": tag, "flags": dict(flags), "idp_cfg": {}, "defaults": defaults(), "md_keys": copy.deepcopy(MD_CHOICES[md]),
+         "cert_assertion": cert_assertion, "cert_advice": cert_advice, "identity": ident, "name_id": _mk(rng, 14),
+         "now": S.NOW0, "lifetime": LIFETIME, "rid": RID, "acs": S.SP_ACS_POST, "sp_entity_id": S.SP_ID,
+         "idp_entity_id": S.IDP_ID, "sp_defaults": {k: bool(v) for k, v in F.read_sp_defaults().items()},
+         "sp": {"want_resp": False, "want_assert": None, "want_either": None, "enc_keys": ["sp_enc1"], "explicit_keys": [],
+                "solicited": True, "delay": 0},
+         "tamper": tamper, "tamper_pos": rng.randrange(4096)}
+    if sp:
+        c["sp"].update(sp)
+    return c
+
+
+def _flags(sr, sa, ea, eaa, sc, pf):
+    return {"sign_response": sr, "sign_assertion": sa, "encrypt_assertion": ea, "encrypted_advice_attributes": eaa,
+            "encrypt_assertion_self_contained": sc, "pefim": pf}
+
+
+def _policy_for(rng, fl, resolved=None):
+    """a recipient signature policy the issued signatures satisfy (so that signatures matter), or a random one"""
+    r = resolved or fl
+    if rng.random() < 0.7:
+        return {"want_resp": bool(r["sign_response"]), "want_assert": bool(r["sign_assertion"]) if rng.random() < 0.8 else None,
+                "want_either": rng.choice([None, None, bool(r["sign_response"] or r["sign_assertion"])])}
+    return {"want_resp": rng.choice([None, False, True]), "want_assert": rng.choice([None, False, True]),
+            "want_either": rng.choice([None, False, True])}
+
+
+SOURCES = {  # certificate source -> (metadata, explicit assertion cert, explicit advice cert, key that opens)
+    "metadata": ("md", None, None, "sp_enc1"),
+    "explicit": ("none", "sp_enc2", "sp_enc2", "sp_enc2"),
+    "none": ("none", None, None, None),
+}
+
+
+def gen_cases(rng, tier):
+    reps = 1 if tier == "quick" else 3
+    table = list(itertools.product((False, True), repeat=6))
+    for _ in range(reps):
+        for bits in table:
+            fl = _flags(*bits)
+            for src, (md, ca, cad, right) in SOURCES.items():
+                rk = right or "sp_enc1"
+                other = "sp_enc1" if rk == "sp_enc2" else "sp_enc2"
+                # the right key: one pair / two pairs with the right one second (rotation) / handed in per request
+                for keys in ({"enc_keys": [rk]}, {"enc_keys": [other, rk]}):
+                    sp = dict(keys)
+                    sp.update(_policy_for(rng, fl))
+                    yield base_case(rng, fl, md, ca, cad, sp, None, "cell/%s/right%d" % (src, len(keys["enc_keys"])))
+                if src == "none":
+                    continue
+                sp = {"enc_keys": [other, "attacker"]}
+                sp.update(_policy_for(rng, fl))
+                yield base_case(rng, fl, md, ca, cad, sp, None, "cell/%s/wrong-key" % src)
+                for t in ("key", "data"):
+                    sp = {"enc_keys": [rk]}
+                    sp.update(_policy_for(rng, fl))
+                    yield base_case(rng, fl, md, ca, cad, sp, t, "cell/%s/flip-%s" % (src, t))
+    n = 1200 if tier == "quick" else 14000
+    for _ in range(n):
+        yield random_case(rng)
+
+
+def random_case(rng):
+    tri = lambda p_none=0.25: None if rng.random() < p_none else rng.random() < 0.5  # noqa: E731
+    fl = {"sign_response": tri(), "sign_assertion": tri(), "encrypt_assertion": tri(0.15),
+          "encrypted_advice_attributes": tri(), "encrypt_assertion_self_contained": tri(), "pefim": rng.random() < 0.4}
+    if rng.random() < 0.5:
+        fl["encrypt_assertion"] = True
+    md = rng.choice(["md", "md", "md", "none", "md2", "garbage-first", "garbage-only", "no-use", "empty"])
+    cert = lambda: rng.choice([None, None, None, "", "sp_enc1", "sp_enc2", "pem:sp_enc2", "garbage", "attacker"])  # noqa: E731
+    ca, cad = cert(), cert()
+    if rng.random() < 0.3:
+        cad = ca
+    c = base_case(rng, fl, md, ca, cad, None, rng.choice([None, None, None, "key", "data"]), "random")
+    if rng.random() < 0.4:
+        c["idp_cfg"] = {k: rng.choice([None, False, True]) for k in FLAG_NAMES if rng.random() < 0.5}
+    d = c["defaults"]
+    resolved = {k: (fl[k] if fl[k] is not None else c["idp_cfg"].get(k) if c["idp_cfg"].get(k) is not None else d[k])
+                for k in FLAG_NAMES}
+    sp = _policy_for(rng, fl, resolved)
+    r = rng.random()
+    if r < 0.45:
+        sp["enc_keys"] = rng.sample(["sp_enc1", "sp_enc2"], 2)
+    elif r < 0.75:
+        sp["enc_keys"] = [rng.choice(["sp_enc1", "sp_enc2"])]
+    elif r < 0.9:
+        sp["enc_keys"] = rng.sample(["sp_enc1", "sp_enc2", "attacker"], rng.randint(0, 2))
+    else:
+        sp["enc_keys"] = []
+    if rng.random() < 0.25:
+        sp["explicit_keys"] = rng.sample(["sp_enc1", "sp_enc2", "attacker"], rng.randint(1, 2))
+    if rng.random() < 0.08:
+        sp["delay"] = rng.choice([60, LIFETIME - 1, LIFETIME + 1, 5000])
+    if rng.random() < 0.05:
+        sp["solicited"] = False
+    c["sp"].update(sp)
+    if not fl["pefim"] and rng.random() < 0.35:
+        c["advice_identity"] = {n: [_mk(rng)] for n in rng.sample(ADV_ATTRS, rng.randint(1, 2))}
+        c["tag"] = "random/extra-advice"
+    return c
+
+
+# ------------------------------------------------------------------ verdict helpers
+
+
+def compare(case, impl, model):
+    if model is None or impl.get("idp") != model.get("idp"):
+        return False
+    if impl["idp"] != "ok":
+        return True
+    for k in ("ops", "wire", "leak", "tampered"):
+        if impl.get(k) != model.get(k):
+            return False
+    a, b = impl["sp"], model.get("sp") or {}
+    if a.get("r") != b.get("r"):
+        return False
+    if a["r"] == "identity":
+        for k in ("name_id_ok", "assertion_ok", "ava_outer", "ava_advice", "came_from", "not_on_or_after", "cached"):
+            if a.get(k) != b.get(k):
+                return False
+    if a["r"] == "none" and a.get("cached", False) != b.get("cached", False):
+        return False
+    return True
+
+
+def finding_key(case, impl, lean):
+    """root-cause class of a spec failure; the classes are decided by the driver from the case alone
+    (Spec/C16.lean: earlyReturnClass / objectFormClass) and must fit the way the implementation failed"""
+    cl = lean.get("classes") or {}
+    why = set(lean.get("why") or [])
+    if cl.get("early") and impl.get("idp") == "ok" and impl.get("ops") == ["signAssertion"] \
+            and why <= {"confidential-advice", "recoverable"} and "confidential-advice" in why:
+        return KEY_EARLY
+    if cl.get("object_form") and impl.get("idp") == "refused" and why == {"issued"}:
+        return KEY_OBJFORM
+    return None
+
+
+def nontrivial(case, impl, lean):
+    cl = lean.get("classes") or {}
+    return bool(cl.get("well_posed")) or (impl.get("idp") == "ok" and (impl["wire"]["body"] == "sealed" or impl["wire"]["advice"] == "sealed"))
+
+
+def shrink(case):
+    base = {"want_resp": False, "want_assert": None, "want_either": None, "explicit_keys": [], "solicited": True, "delay": 0}
+    for k, v in base.items():
+        if case["sp"].get(k) != v:
+            c = copy.deepcopy(case)
+            c["sp"][k] = v
+            yield c
+    if case.get("idp_cfg"):
+        c = copy.deepcopy(case)
+        c["idp_cfg"] = {}
+        yield c
+    if case.get("advice_identity"):
+        c = copy.deepcopy(case)
+        del c["advice_identity"]
+        yield c
+    if case.get("tamper"):
+        c = copy.deepcopy(case)
+        c["tamper"] = None
+        yield c
+    for k in ("cert_assertion", "cert_advice"):
+        if case.get(k) is not None:
+            c = copy.deepcopy(case)
+            c[k] = None
+            yield c
+    for k in FLAG_NAMES + ["pefim"]:
+        if case["flags"].get(k):
+            c = copy.deepcopy(case)
+            c["flags"][k] = False
+            yield c
+    if len(case["identity"]) > 1:
+        c = copy.deepcopy(case)
+        k = sorted(c["identity"])[0]
+        c["identity"] = {k: c["identity"][k][:1]}
+        yield c
+
+
+def neighbours(case, rng):
+    for k in FLAG_NAMES + ["pefim"]:
+        c = copy.deepcopy(case)
+        c["flags"][k] = not c["flags"].get(k)
+        yield c
+    for keys in (["sp_enc1"], ["sp_enc2"], ["sp_enc2", "sp_enc1"], []):
+        c = copy.deepcopy(case)
+        c["sp"]["enc_keys"] = keys
+        yield c
+    for t in (None, "key", "data"):
+        c = copy.deepcopy(case)
+        c["tamper"] = t
+        yield c
+
+
+def distribution(recs):
+    d = {}
+    for r in recs:
+        i = r["impl"]
+        k = r["case"].get("tag", "?").split("/")[0] + ":" + (
+            "refused" if i.get("idp") != "ok" else "%s/%s->%s" % (i["wire"]["body"], i["wire"]["advice"], i["sp"]["r"]))
+        d[k] = d.get(k, 0) + 1
+    return d
